@@ -150,6 +150,7 @@ type Machine struct {
 	delays  int
 	now     int64
 	timers  []*timer
+	conds     map[*Value]*condState
 	timerObjs map[*Value]*ChanObj // *time.Timer cell -> its channel
 	mutexes map[*Value]*mutexState
 	wgs     map[*Value]*wgState
